@@ -147,6 +147,16 @@ pub fn run(ctx: &Ctx, rep: &mut Report) {
                     }
                 }
             }
+            if rng.chance(1, 20) {
+                let a = w.its.clone();
+                if w.u.upgrade_and_migrate(&a).is_ok() {
+                    rep.count("upgrade-and-migrate");
+                    if let Some(dd) = w.check_registry() {
+                        rep.violation("registry-or-trust-changed-by-upgrade-and-migrate", dd);
+                        break;
+                    }
+                }
+            }
             // now and then the usual destination loses (or regains) its trust right between two
             // requests toward it
             if rng.chance(1, 8) {
